@@ -64,49 +64,61 @@ package exif2
 // (readTagValue reads the value of the CURRENT entry).
 //@ spec tagPre(ir, t) = irOK(ir) && ir.buffer.pos < 84 && (t.IsEmbedded() || t == ir.buffer.tag[ir.buffer.pos])
 
+// C06: ir.po is the offset inside the Exif (TIFF) block of the byte the reader stands at. What makes the result independent
+// of the container is that this correspondence is fixed once by the entry point and then kept by every read primitive:
+// anchor(ir) - the stream position (mod 2^32) of offset 0 of the block - never changes.
+//@ spec anchor(ir) = uint32(pos(ir.reader)) - ir.po
+
 //@ pool bufferPool *buffer
 
 //@ func (*ifdReader).fastRead
-//@   props C01 C02 C08
+//@   props C01 C02 C08 C06
 //@   requires irOK(ir) && n >= 0
 //@   modifies ir.po, stream(ir.reader), ir.buffer.buf
+//@   ensures [C06] anchor(ir) == old(anchor(ir))
 //@   ensures [C02 C08] err == nil ==> pos(ir.reader) == old(pos(ir.reader)) + n
 //@   ensures [C02] pos(ir.reader) >= old(pos(ir.reader))
 //@   ensures [C01 C08] err == nil ==> len(buf) == n
 
 //@ func (*ifdReader).discard
-//@   props C01 C02 C08
+//@   props C01 C02 C08 C06
 //@   requires irOK(ir)
 //@   modifies ir.po, stream(ir.reader), ir.buffer.buf
+//@   ensures [C06] anchor(ir) == old(anchor(ir))
 //@   ensures [C02] pos(ir.reader) >= old(pos(ir.reader))
 //@   loop 0 decreases ite(err == nil, n, 0)
 //@   loop 0 invariant pos(ir.reader) >= old(pos(ir.reader))
+//@   loop 0 invariant anchor(ir) == old(anchor(ir))
 
 //@ func (*ifdReader).readTagValue
-//@   props C01 C02
+//@   props C01 C02 C06
 //@   requires irOK(ir) && ir.buffer.pos < 84
 //@   modifies ir.po, stream(ir.reader), ir.buffer.buf
+//@   ensures [C06] anchor(ir) == old(anchor(ir))
 //@   ensures [C02] err == nil ==> pos(ir.reader) >= old(pos(ir.reader)) + len(buf)
 //@   ensures [C02] pos(ir.reader) >= old(pos(ir.reader))
 //@   ensures [C01] err == nil ==> len(buf) == int(ir.buffer.tag[ir.buffer.pos].Size())
 
 //@ func (*ifdReader).seekToTag
-//@   props C01 C02
+//@   props C01 C02 C06
 //@   requires irOK(ir)
 //@   modifies ir.po, stream(ir.reader), ir.buffer.buf
+//@   ensures [C06] anchor(ir) == old(anchor(ir))
 //@   ensures [C02] pos(ir.reader) >= old(pos(ir.reader))
 
 //@ func (*ifdReader).readUint16
-//@   props C01
+//@   props C01 C06
 //@   requires irOK(ir)
 //@   modifies ir.po, stream(ir.reader), ir.buffer.buf
+//@   ensures [C06] anchor(ir) == old(anchor(ir))
 //@   ensures [C02] r1 == nil ==> pos(ir.reader) == old(pos(ir.reader)) + 2
 //@   ensures [C02] pos(ir.reader) >= old(pos(ir.reader))
 
 //@ func (*ifdReader).readUint32
-//@   props C01
+//@   props C01 C06
 //@   requires irOK(ir)
 //@   modifies ir.po, stream(ir.reader), ir.buffer.buf
+//@   ensures [C06] anchor(ir) == old(anchor(ir))
 //@   ensures [C02] r1 == nil ==> pos(ir.reader) == old(pos(ir.reader)) + 4
 //@   ensures [C02] pos(ir.reader) >= old(pos(ir.reader))
 
@@ -119,105 +131,122 @@ package exif2
 // Value decoders: each reads at most the value of the current pending tag; none changes the pending-tag buffer.
 
 //@ func (*ifdReader).ParseCameraMake
-//@   props C01 C02
+//@   props C01 C02 C06
 //@   requires tagPre(ir, t)
 //@   modifies ir.po, stream(ir.reader), ir.buffer.buf
+//@   ensures [C06] anchor(ir) == old(anchor(ir))
 //@   ensures [C02] pos(ir.reader) >= old(pos(ir.reader))
 
 //@ func (*ifdReader).ParseDate
-//@   props C01 C02
+//@   props C01 C02 C06
 //@   requires tagPre(ir, t)
 //@   modifies ir.po, stream(ir.reader), ir.buffer.buf
+//@   ensures [C06] anchor(ir) == old(anchor(ir))
 //@   ensures [C02] pos(ir.reader) >= old(pos(ir.reader))
 
 //@ func (*ifdReader).ParseGPSAltitude
-//@   props C01 C02
+//@   props C01 C02 C06
 //@   requires tagPre(ir, t)
 //@   modifies ir.po, stream(ir.reader), ir.buffer.buf
+//@   ensures [C06] anchor(ir) == old(anchor(ir))
 //@   ensures [C02] pos(ir.reader) >= old(pos(ir.reader))
 
 //@ func (*ifdReader).ParseGPSCoord
-//@   props C01 C02
+//@   props C01 C02 C06
 //@   requires tagPre(ir, t)
 //@   modifies ir.po, stream(ir.reader), ir.buffer.buf
+//@   ensures [C06] anchor(ir) == old(anchor(ir))
 //@   ensures [C02] pos(ir.reader) >= old(pos(ir.reader))
 
 //@ func (*ifdReader).ParseOffsetTime
-//@   props C01 C02
+//@   props C01 C02 C06
 //@   requires tagPre(ir, t)
 //@   modifies ir.po, stream(ir.reader), ir.buffer.buf
+//@   ensures [C06] anchor(ir) == old(anchor(ir))
 //@   ensures [C02] pos(ir.reader) >= old(pos(ir.reader))
 
 //@ func (*ifdReader).ParseRationalU
-//@   props C01 C02
+//@   props C01 C02 C06
 //@   requires tagPre(ir, t)
 //@   modifies ir.po, stream(ir.reader), ir.buffer.buf
+//@   ensures [C06] anchor(ir) == old(anchor(ir))
 //@   ensures [C02] pos(ir.reader) >= old(pos(ir.reader))
 
 //@ func (*ifdReader).ParseString
-//@   props C01 C02
+//@   props C01 C02 C06
 //@   requires tagPre(ir, t)
 //@   modifies ir.po, stream(ir.reader), ir.buffer.buf
+//@   ensures [C06] anchor(ir) == old(anchor(ir))
 //@   ensures [C02] pos(ir.reader) >= old(pos(ir.reader))
 
 //@ func (*ifdReader).ParseBuffer
-//@   props C01 C02
+//@   props C01 C02 C06
 //@   requires tagPre(ir, t)
 //@   modifies ir.po, stream(ir.reader), ir.buffer.buf
+//@   ensures [C06] anchor(ir) == old(anchor(ir))
 //@   ensures [C02] pos(ir.reader) >= old(pos(ir.reader))
 
 //@ func (*ifdReader).ParseSubSecTime
-//@   props C01 C02
+//@   props C01 C02 C06
 //@   requires tagPre(ir, t)
 //@   modifies ir.po, stream(ir.reader), ir.buffer.buf
+//@   ensures [C06] anchor(ir) == old(anchor(ir))
 //@   ensures [C02] pos(ir.reader) >= old(pos(ir.reader))
 
 //@ func (*ifdReader).parseAperture
-//@   props C01 C02
+//@   props C01 C02 C06
 //@   requires tagPre(ir, t)
 //@   modifies ir.po, stream(ir.reader), ir.buffer.buf
+//@   ensures [C06] anchor(ir) == old(anchor(ir))
 //@   ensures [C02] pos(ir.reader) >= old(pos(ir.reader))
 
 //@ func (*ifdReader).parseExposureBias
-//@   props C01 C02
+//@   props C01 C02 C06
 //@   requires tagPre(ir, t)
 //@   modifies ir.po, stream(ir.reader), ir.buffer.buf
+//@   ensures [C06] anchor(ir) == old(anchor(ir))
 //@   ensures [C02] pos(ir.reader) >= old(pos(ir.reader))
 
 //@ func (*ifdReader).parseExposureTime
-//@   props C01 C02
+//@   props C01 C02 C06
 //@   requires tagPre(ir, t)
 //@   modifies ir.po, stream(ir.reader), ir.buffer.buf
+//@   ensures [C06] anchor(ir) == old(anchor(ir))
 //@   ensures [C02] pos(ir.reader) >= old(pos(ir.reader))
 
 //@ func (*ifdReader).parseFocalLength
-//@   props C01 C02
+//@   props C01 C02 C06
 //@   requires tagPre(ir, t)
 //@   modifies ir.po, stream(ir.reader), ir.buffer.buf
+//@   ensures [C06] anchor(ir) == old(anchor(ir))
 //@   ensures [C02] pos(ir.reader) >= old(pos(ir.reader))
 
 //@ func (*ifdReader).parseGPSDateStamp
-//@   props C01 C02
+//@   props C01 C02 C06
 //@   requires tagPre(ir, t)
 //@   modifies ir.po, stream(ir.reader), ir.buffer.buf
+//@   ensures [C06] anchor(ir) == old(anchor(ir))
 //@   ensures [C02] pos(ir.reader) >= old(pos(ir.reader))
 
 //@ func (*ifdReader).parseGPSTimeStamp
-//@   props C01 C02
+//@   props C01 C02 C06
 //@   requires tagPre(ir, t)
 //@   modifies ir.po, stream(ir.reader), ir.buffer.buf
+//@   ensures [C06] anchor(ir) == old(anchor(ir))
 //@   ensures [C02] pos(ir.reader) >= old(pos(ir.reader))
 
 //@ func (*ifdReader).parseLensInfo
-//@   props C01 C02
+//@   props C01 C02 C06
 //@   requires tagPre(ir, t)
 //@   modifies ir.po, stream(ir.reader), ir.buffer.buf
+//@   ensures [C06] anchor(ir) == old(anchor(ir))
 //@   ensures [C02] pos(ir.reader) >= old(pos(ir.reader))
 
 //@ func (*ifdReader).ParseCameraModel
-//@   props C01 C02
+//@   props C01 C02 C06
 //@   requires tagPre(ir, t)
 //@   modifies ir.po, stream(ir.reader), ir.buffer.buf, ir.Exif
+//@   ensures [C06] anchor(ir) == old(anchor(ir))
 //@   ensures [C02] pos(ir.reader) >= old(pos(ir.reader))
 
 //@ func trimNULBuffer
@@ -234,85 +263,110 @@ package exif2
 //@   modifies nothing
 
 //@ func (*ifdReader).parseTag
-//@   props C01 C02 C03
+//@   props C01 C02 C03 C06
 //@   requires tagPre(ir, t)
 //@   modifies ir.po, stream(ir.reader), ir.buffer.buf, ir.Exif
+//@   ensures [C06] anchor(ir) == old(anchor(ir))
 //@   ensures [C02] pos(ir.reader) >= old(pos(ir.reader))
 
 //@ func (*ifdReader).readNextIfdTag
-//@   props C01 C02
+//@   props C01 C02 C06
 //@   requires irOK(ir)
 //@   modifies ir.po, stream(ir.reader), ir.buffer.buf, ir.buffer.len, ir.buffer.tag
+//@   ensures [C06] anchor(ir) == old(anchor(ir))
 //@   ensures [C02] pos(ir.reader) >= old(pos(ir.reader))
 //@   ensures [C02] ir.buffer.len > old(ir.buffer.len) ==> pos(ir.reader) > old(pos(ir.reader))
 //@   ensures ir.buffer.len <= 84 && ir.buffer.len >= old(ir.buffer.len)
 
 //@ func (*ifdReader).readIfdHeader
-//@   props C01 C02
+//@   props C01 C02 C06
 //@   requires irOK(ir) && ir.buffer.pos == 0
 //@   modifies ir.po, stream(ir.reader), ir.buffer.buf, ir.buffer.len, ir.buffer.tag, ir.Exif
+//@   ensures [C06] anchor(ir) == old(anchor(ir))
 //@   ensures [C02] pos(ir.reader) >= old(pos(ir.reader))
 //@   ensures [C02] ir.buffer.len > old(ir.buffer.len) ==> pos(ir.reader) > old(pos(ir.reader))
 //@   ensures ir.buffer.len <= 84 && ir.buffer.len >= old(ir.buffer.len)
 //@   loop 0 invariant 0 <= i && ir.buffer.len <= 84 && ir.buffer.len >= old(ir.buffer.len) && pos(ir.reader) > old(pos(ir.reader))
+//@   loop 0 invariant anchor(ir) == old(anchor(ir))
 
 //@ func (*ifdReader).readSubIfds
-//@   props C01 C02
+//@   props C01 C02 C06
 //@   requires tagPre(ir, t)
 //@   modifies ir.po, stream(ir.reader), ir.buffer.buf, ir.buffer.len, ir.buffer.tag
+//@   ensures [C06] anchor(ir) == old(anchor(ir))
 //@   ensures [C02] pos(ir.reader) >= old(pos(ir.reader))
 //@   ensures [C02] ir.buffer.len > old(ir.buffer.len) ==> pos(ir.reader) > old(pos(ir.reader))
 //@   ensures ir.buffer.len <= 84 && ir.buffer.len >= old(ir.buffer.len)
 //@   loop 0 invariant 0 <= i && ir.buffer.len <= 84 && ir.buffer.len >= old(ir.buffer.len) && pos(ir.reader) >= old(pos(ir.reader)) && (len(buf) > 0 ==> pos(ir.reader) > old(pos(ir.reader))) && (i > 0 ==> len(buf) >= 4) && (i == 0 ==> ir.buffer.len == old(ir.buffer.len))
 //@   loop 0 decreases int(t.UnitCount) - i
+//@   loop 0 invariant anchor(ir) == old(anchor(ir))
 
 //@ func (*ifdReader).readMakerNotes
-//@   props C01 C02
+//@   props C01 C02 C06
 //@   requires irOK(ir) && ir.buffer.pos == 0
 //@   modifies ir.po, stream(ir.reader), ir.buffer.buf, ir.buffer.len, ir.buffer.tag, ir.Exif
+//@   ensures [C06] anchor(ir) == old(anchor(ir))
 //@   ensures [C02] pos(ir.reader) >= old(pos(ir.reader))
 //@   ensures [C02] ir.buffer.len > old(ir.buffer.len) ==> pos(ir.reader) > old(pos(ir.reader))
 //@   ensures ir.buffer.len <= 84 && ir.buffer.len >= old(ir.buffer.len)
 
 //@ func (*ifdReader).readIfd
-//@   props C01 C02
+//@   props C01 C02 C06
 //@   requires irOK(ir) && ir.buffer.pos == 0
 //@   modifies ir.po, stream(ir.reader), ir.buffer.buf, ir.buffer.len, ir.buffer.pos, ir.buffer.tag, ir.Exif
+//@   ensures [C06] anchor(ir) == old(anchor(ir))
 //@   ensures [C02] pos(ir.reader) >= old(pos(ir.reader))
 //@   ensures irOK(ir)
 //@   loop 0 invariant irOK(ir) && (ir.buffer.pos < ir.buffer.len ==> t == ir.buffer.tag[ir.buffer.pos]) && pos(ir.reader) >= old(pos(ir.reader))
 //@   loop 0 decreases lim(ir.reader) - pos(ir.reader), ir.buffer.len - ir.buffer.pos
+//@   loop 0 invariant anchor(ir) == old(anchor(ir))
 
 //@ func (*ifdReader).ResetReader
 //@   props C01
 //@   requires ir.buffer != nil && r != nil
-//@   modifies ir.reader, ir.buffer.len, ir.buffer.pos
-//@   ensures irOK(ir) && ir.buffer.pos == 0 && ir.buffer.len == 0
+//@   modifies ir.reader, ir.buffer.len, ir.buffer.pos, ir.po
+//@   ensures irOK(ir) && ir.buffer.pos == 0 && ir.buffer.len == 0 && ir.reader == r && ir.po == 0
 
 //@ func NewIfdReader
-//@   props C01 C04
+//@   props C01 C04 C06
 //@   entry
-//@   ensures r0.buffer != nil && r0.buffer.len == 0 && r0.buffer.pos == 0
+//@   modifies buffer.len, buffer.pos
+//@   ensures r0.buffer != nil && r0.buffer.len == 0 && r0.buffer.pos == 0 && r0.po == 0
 
+// C06: the three entry variants fix the correspondence between offsets inside the Exif block and stream positions.
+// hdrFrom(h, r, p): the header's byte order and first-IFD offset are those of the TIFF header found at stream position p
+// (what every container scanner guarantees: tiff.ScanTiffHeader, png.ScanPngHeader, the jpeg and isobmff callback contracts).
+//@ spec hdrFrom(h, r, p) = (sigLEat(r, p) ==> h.ByteOrder == utils.LittleEndian && h.FirstIfdOffset == le32At(r, p+4)) && (sigBEat(r, p) ==> h.ByteOrder == utils.BigEndian && h.FirstIfdOffset == be32At(r, p+4))
+
+// reader at the TIFF header (TIFF-family files, PNG eXIf): offset 0 of the block is the current position
 //@ func (*ifdReader).DecodeTiff
 //@   props C01 C02 C06
 //@   entry
 //@   requires ir.buffer != nil && r != nil
+//@   requires [C06] hdrFrom(h, r, pos(r))
+//@   ensures [C06] anchor(ir) == uint32(old(pos(r))) && ir.firstIfdOffset == h.FirstIfdOffset
 
+// reader at the TIFF header (JPEG APP1, after "Exif\0\0")
 //@ func (*ifdReader).DecodeJPEGIfd
 //@   props C01 C02 C06
 //@   entry
 //@   requires ir.buffer != nil && r != nil
+//@   requires [C06] hdrFrom(h, r, pos(r))
+//@   ensures [C06] anchor(ir) == uint32(old(pos(r))) && ir.firstIfdOffset == h.FirstIfdOffset
 
+// reader just after the 8-byte TIFF header (ISOBMFF CMT boxes, HEIF Exif item): offset 0 is 8 bytes back
 //@ func (*ifdReader).DecodeIfd
 //@   props C01 C02 C06
 //@   entry
 //@   requires ir.buffer != nil && r != nil
+//@   requires [C06] hdrFrom(h, r, pos(r) - 8)
+//@   ensures [C06] anchor(ir) == uint32(old(pos(r)) - 8) && ir.firstIfdOffset == h.FirstIfdOffset
 
 //@ func Parse
-//@   props C01 C02
+//@   props C01 C02 C06
 //@   entry
 //@   requires r != nil
+//@   requires [C06] pos(r) == 0
 
 // A user-supplied tag parser (SetCustomTagParser) is code outside the module. ASSUMED: it acts on the reader only through the
 // TagParser methods it is handed (the Parse* value decoders above), so its effect is bounded by theirs.
@@ -320,6 +374,7 @@ package exif2
 //@   names p t -> err
 //@   modifies as(p, "*exif2.ifdReader").po, stream(as(p, "*exif2.ifdReader").reader), as(p, "*exif2.ifdReader").buffer.buf, as(p, "*exif2.ifdReader").Exif
 //@   ensures pos(as(p, "*exif2.ifdReader").reader) >= old(pos(as(p, "*exif2.ifdReader").reader))
+//@   ensures [C06] anchor(as(p, "*exif2.ifdReader")) == old(anchor(as(p, "*exif2.ifdReader")))
 
 // Log marshaler of the pending-tag buffer (C15: code that only runs at low log levels must be safe, too).
 //@ func (*buffer).MarshalZerologArray
